@@ -187,3 +187,61 @@ def gen_race(seed, n):
         r.shuffle(idxs)
         lines.append("RACE c20race_%d_%d_n%d %d %d %s" % (seed, m, dbs, dbs, conns, ",".join(map(str, idxs))))
     return lines
+
+
+def gen_reconnect(seed, n, prefix="c20rc"):
+    """connection lifecycle: connections SELECT n != 0, write a marker and end (CLOSE); new connections
+    -- under fresh ids, under the id of a closed one, one after another and a few concurrently (PAR)
+    -- never send SELECT and immediately read/write: they must be in database 0.  Dozens of
+    reconnects per case, so that any recycling of per-connection state is hit."""
+    r = random.Random(seed * 2654435761 % (2 ** 31) + 5)
+    cases = []
+    for i in range(n):
+        dbs = r.choice([2, 3, 16])
+        c = gen.Case("%s_%d_%d_n%d" % (prefix, seed, i, dbs), dbs)
+        setup_markers(c, dbs)
+        if r.random() < 0.5:
+            c.lines.append("CLOSE %d" % SETUP)
+        nxt = 100
+        closed = []
+        for rnd in range(r.randrange(12, 30)):
+            a = nxt
+            nxt += 1
+            idx = r.randrange(1, dbs)
+            c.cmd([gen.randcase(r, b"select"), str(idx).encode()], conn=a)
+            c.cmd([b"set", b"mark", b"by%d" % a], conn=a)
+            if r.random() < 0.5:
+                c.cmd([b"get", b"whoami"], conn=a)
+            c.lines.append("CLOSE %d" % a)
+            closed.append(a)
+            # the next connection: a fresh id, or the id of a connection that has ended
+            b = r.choice(closed) if r.random() < 0.35 else nxt
+            if b == nxt:
+                nxt += 1
+            c.cmd([b"get", b"whoami"], conn=b)
+            x = r.random()
+            if x < 0.4:
+                c.cmd([b"set", b"probe", b"p%d" % rnd], conn=b)
+                c.cmd([b"get", b"mark"], conn=b)
+            elif x < 0.6:
+                c.cmd([b"select", str(r.randrange(dbs)).encode()], conn=b)
+                c.cmd([b"get", b"whoami"], conn=b)
+            if r.random() < 0.6:
+                c.lines.append("CLOSE %d" % b)
+                if b not in closed:
+                    closed.append(b)
+            if r.random() < 0.25:
+                # a few new connections at once
+                c.lines.append("PAR")
+                for _ in range(r.randrange(2, 6)):
+                    p = nxt
+                    nxt += 1
+                    c.cmd([b"get", b"whoami"], conn=p)
+                    c.cmd([b"exists", b"mark"], conn=p)
+                    c.cmd([b"get", b"whoami"], conn=p)
+                c.lines.append("JOIN")
+            if r.random() < 0.15:
+                c.dump()
+        c.dump()
+        cases.append(c)
+    return cases
